@@ -37,11 +37,23 @@ Definition stream_hdr_len (sid off : Z) : Z := 1 + vlen sid + (if off =? 0 then 
 Definition length_stream (sid off : Z) (data : list Z) (dlp : bool) : Z :=
   stream_hdr_len sid off + (if dlp then vlen (zlen data) else 0) + zlen data.
 
+(** shrinkForLengthField(space): the loop `for dataLen > 0 && Len(dataLen)-1+dataLen > space { dataLen-- }`.
+    It runs at most 7 times (a varint has at most 8 bytes); fuel 9 always suffices, running out
+    is reported as -1 (excluded by [shrink_spec]). *)
+Fixpoint shrink_loop (fuel : nat) (dataLen space : Z) : Z :=
+  match fuel with
+  | O => -1
+  | S fuel' =>
+    if (0 <? dataLen) && (space <? vlen dataLen - 1 + dataLen) then shrink_loop fuel' (dataLen - 1) space
+    else dataLen
+  end.
+Definition shrink_for_length_field (space : Z) : Z := shrink_loop 9 space space.
+
 Definition maxdatalen_stream (sid off : Z) (dlp : bool) (maxSize : Z) : Z :=
   let headerLen := stream_hdr_len sid off + (if dlp then 1 else 0) in
   if maxSize <? headerLen then 0
   else let m := maxSize - headerLen in
-       if dlp && negb (vlen m =? 1) then m - 1 else m.
+       if dlp then shrink_for_length_field m else m.
 
 (** MaybeSplitOffFrame: (new frame, "was splitting required", the frame f afterwards) *)
 Definition split_stream (sid off : Z) (data : list Z) (fin dlp : bool) (maxSize : Z)
@@ -63,7 +75,7 @@ Definition length_crypto (off : Z) (data : list Z) : Z := 1 + vlen off + vlen (z
 Definition maxdatalen_crypto (off maxSize : Z) : Z :=
   let headerLen := 1 + vlen off + 1 in
   if maxSize <? headerLen then 0
-  else let m := maxSize - headerLen in if negb (vlen m =? 1) then m - 1 else m.
+  else shrink_for_length_field (maxSize - headerLen).
 
 Definition split_crypto (off : Z) (data : list Z) (maxSize : Z) : option frame * bool * frame :=
   let f := FCrypto off data in
@@ -88,4 +100,4 @@ Definition maxdatalen_datagram (dlp : bool) (maxSize : Z) : Z :=
   let headerLen := 1 + (if dlp then 1 else 0) in
   if maxSize <? headerLen then 0
   else let m := maxSize - headerLen in
-       if dlp && negb (vlen m =? 1) then m - 1 else m.
+       if dlp then shrink_for_length_field m else m.
